@@ -6,6 +6,23 @@ import os
 VERIF = os.path.dirname(os.path.dirname(os.path.abspath(__file__)))
 
 CHECKS = {
+    "C01": dict(
+        category="model_checking",
+        technique="TLC trace validation (Trace_Api: sent = Wire!EncodeLayout(Messages!Req[op], Api!Fields(op,args))) of API calls recorded at the transport boundary; TLC check of table well-formedness and codec round trip (MC_Wire)",
+        text="The protocol (field codec, 65 message layouts, per-operation request construction) is an executable TLA+ definition; TLC checks its well-formedness and round trip, "
+             "and then judges every recorded call of the real library (sequences on one client: all ordered pairs of operations, every 1-byte argument over all 256 values, all HH:mm values, random and boundary tuples, serial bit-walks) "
+             "by comparing all 64 bytes handed to the transport with the specification's encoding. Exhaustive per field, combinatorial/random across fields; not a proof over all argument tuples.",
+        note="Trusted: spec/Messages.tla as the protocol (frozen transcription of the pinned commit, cross-checked against the repository's golden vectors); TLC; the harness projection of arguments (field copies). TZ=UTC.",
+        design="4/C01",
+    ),
+    "C07": dict(
+        category="model_checking",
+        technique="TLC trace validation (Trace_Api: nothing sent <=> Api!Reject(op,args)) of API calls recorded on the scripted transport, incl. the complete 2^32 card-number space as accept intervals (thorough)",
+        text="Api!Reject is the complete list of refusal reasons of the property; each recorded call must have put nothing on the transport and returned an error exactly when Reject holds, and exactly one request otherwise. "
+             "Boundary-exhaustive argument sets per rule (card numbers around every facility-code boundary x format lists, PINs, AddrPort variants, net.IP shapes, doors 0..255, HH:mm pairs); thorough tier decides the Wiegand-26 accept set over all 2^32 numbers.",
+        note="Trusted: TLC; the scripted transport as observation point for 'nothing on the network'; argument projection by field copy.",
+        design="4/C07",
+    ),
     "C12": dict(
         category="model_checking",
         technique="TLC model check of the BCD laws (MC_Bcd) + TLC trace validation (Trace_C12) of recorded bcd.Encode/Decode calls",
